@@ -137,5 +137,5 @@ func Flatten(it Item) Item {
 		})
 		return it
 	}
-	return it.GetLink()
+	return FlattenToIRI(it)
 }
